@@ -256,6 +256,9 @@ def main():
     t0 = time.time()
     spec = vprops.PROPS[prop]
     jobs = spec["jobs"](tier)
+    if os.environ.get("VERIF_FORCE_VARIANT"):  # experiments only (e.g. prod_ndebug: library assertions off)
+        for j in jobs:
+            j["variant"] = os.environ["VERIF_FORCE_VARIANT"]
     if tier != "thorough":
         # the quick tier concentrates on the configurations tagged "quick"; every other configuration of the same
         # harness still gets a share (one worker, a sixth of the cases), so that no configuration is only ever run
